@@ -361,6 +361,33 @@ struct Corpus {
         P("sys:val-named", "val put = 1;\nproc main() is val put = 0; put(9)\n");
         P("sys:val-named", "val put = 1; val s = 256;\nproc main() is { put('f', s); put('g', s + 256); 0(0) }\n");
       }
+      // F14: every sequence of <=4 local declarations over {val, var} (and of <=3 global declarations over {val, var, array}) in a procedure whose body needs temporaries and outgoing actuals:
+      // every var is written first, then a two-actual call, a subscripted store with a computed value and an expression with a spilled operand run, then every var is read back
+      {
+        for (int n = 1; n <= 4; n++) for (int m = 0; m < (1 << n); m++) for (int shape = 0; shape < 3; shape++) {
+          std::string decl, init, sum = "0"; int nv = 0, nl = 0;
+          for (int k = 0; k < n; k++) {
+            if (m & (1 << k)) { decl += "var v" + std::to_string(nv) + "; "; init += "v" + std::to_string(nv) + " := " + std::to_string(10 + 7 * nv) + " + p; "; sum = "(" + sum + " + v" + std::to_string(nv) + ")"; nv++; }
+            else { decl += "val c" + std::to_string(nl) + " = " + std::to_string(shape == 2 ? 70000 + nl : 3 + nl) + "; "; sum = "(" + sum + " + c" + std::to_string(nl) + ")"; nl++; }
+          }
+          std::string use = shape == 0 ? "two(p, p + 1); a[p] := p + (p + 2); g := g + ((p + 1) + (a[p] + id(p))); "
+                          : shape == 1 ? "a[id(p)] := id(p) + id(p + 1); two(a[p], id(p)); "
+                                       : "g := two2(id(p) + 1, id(p + 1) + (p + p)); ";
+          P("locals:order", "var g; array a[4];\nfunc id(val n) is return n\nproc two(val u, val w) is g := (g + u) + (w + w)\nfunc two2(val u, val w) is return (u + u) + w\n"
+                            "proc t(val p) is " + decl + "\n{ " + init + use + "0((" + sum + " + g) + a[1]) }\nproc main() is { g := 0; a[1] := 0; t(1) }\n");
+          if (shape == 0) P("locals:order:func", "var g;\nfunc id(val n) is return n\nfunc t(val p) is " + decl + "\n{ " + init + "g := id(p) + id(p + 1); return " + sum + " + g }\nproc main() is 0(t(2) + t(3))\n");
+        }
+        const char *G[3] = {"val", "var", "array"};
+        for (int n = 1; n <= 3; n++) { int tot = 1; for (int k = 0; k < n; k++) tot *= 3;
+          for (int m = 0; m < tot; m++) {
+            std::string decl, init, sum = "0"; int r = m;
+            for (int k = 0; k < n; k++) { int kind = r % 3; r /= 3; std::string nm = "q" + std::to_string(k);
+              if (kind == 0) { decl += "val " + nm + " = " + std::to_string(5 + k) + ";\n"; sum = "(" + sum + " + " + nm + ")"; }
+              else if (kind == 1) { decl += "var " + nm + ";\n"; init += nm + " := " + std::to_string(20 + k) + "; "; sum = "(" + sum + " + " + nm + ")"; }
+              else { decl += "array " + nm + "[" + std::to_string(2 + k) + "];\n"; init += nm + "[0] := " + std::to_string(30 + k) + "; " + nm + "[" + std::to_string(1 + k) + "] := " + std::to_string(40 + k) + "; "; sum = "(" + sum + " + (" + nm + "[0] + " + nm + "[" + std::to_string(1 + k) + "]))"; } }
+            P("globals:order", decl + "proc main() is { " + init + "0(" + sum + ") }\n");
+          } }
+      }
       // F12: every ordered pair (thorough: triple) of simple statements over a vocabulary of assignments and calls whose sources and targets include each
       // constant subscript 0..3 of a global and of a formal array: adjacent-statement interactions (peephole removal of reloads, register reuse)
       {
